@@ -9,7 +9,7 @@ func init() {
 			"pool accumulators are brought up to now before positions, ticks or incentive records change; claiming sets the position's snapshot to init + growth outside, claims, then re-bases to global − outside; emission pays min(emitted, remaining) and deducts exactly what it paid; rewards for an uptime the position has not reached are forfeited, never added to the collected coins.",
 		NotCovered:  []string{"proportionality and identical-positions-earn-identical-rewards as numbers", "totals claimable vs paid in over histories"},
 		Assumptions: []string{"osmoutils/accum semantics (C15)"},
-		MinObl:      43,
+		MinObl:      47,
 		Run:         runC08,
 	})
 }
